@@ -383,3 +383,52 @@ func ZZ_C17_par_request_object() {
 		zz.Cover("use:request-object-values-honoured", true)
 	}
 }
+
+// ZZ_C17_par_two_pushes: two pushes at DIFFERENT instants (c1 first, c2 after a symbolic wait), with or
+// without an application session; each request_uri lives until ITS OWN expiry, whatever was pushed later.
+func ZZ_C17_par_two_pushes() {
+	w := world.New(world.Options{
+		Tweak: func(cfg *fosite.Config) { cfg.PushedAuthorizeContextLifespan = lifespan },
+		Extra: []compose.Factory{compose.PushedAuthorizeHandlerFactory},
+	})
+	withSession := zz.Choice("sessions", 2) == 0
+	push := func(client string) string {
+		form := url.Values{"client_id": {client}, "client_secret": {secretOf(client)}, "response_type": {"code"},
+			"redirect_uri": {"https://" + client + ".example/cb"}, "scope": {"photos"}, "state": {"state-of-" + client + "-0123456789"}}
+		ar, err := w.Provider.NewPushedAuthorizeRequest(w.Ctx, world.Post(form))
+		zz.Assume(err == nil)
+		var sess fosite.Session
+		if withSession {
+			sess = world.NewSession("peter")
+		}
+		resp, err := w.Provider.NewPushedAuthorizeResponse(w.Ctx, ar, sess)
+		zz.Assume(err == nil)
+		return resp.GetRequestURI()
+	}
+	margin := int64(3 * time.Second)
+	clear := func(t int64) bool { return zz.Or(t < int64(lifespan)-margin, t > int64(lifespan)+margin) }
+	uriA := push("c1")
+	d1 := zz.Int("wait", 0, int64(2*lifespan))
+	zz.Advance(time.Duration(d1))
+	uriB := push("c2")
+	zz.Assert(uriA != uriB, "two pushes: distinct request_uris")
+	d2 := zz.Int("advance", 0, int64(2*lifespan))
+	// the native clock drifts: stay 3 s away from both expiry instants
+	zz.Assume(zz.And(clear(d1+d2), clear(d2)))
+	zz.Advance(time.Duration(d2))
+	use := func(client, uri string) error {
+		_, err := w.Provider.NewAuthorizeRequest(w.Ctx, world.Get(url.Values{"client_id": {client}, "request_uri": {uri}}))
+		return err
+	}
+	which := zz.Choice("used", 2)
+	if which == 0 {
+		err := use("c1", uriA)
+		zz.Observe("useA.err", world.ErrName(err))
+		zz.Assert((err == nil) == (d1+d2 < int64(lifespan)), "two pushes: the FIRST request_uri is honoured exactly until its own expiry")
+		zz.Cover("two-pushes:first-expired-second-alive", d1+d2 > int64(lifespan) && d2 < int64(lifespan))
+	} else {
+		err := use("c2", uriB)
+		zz.Observe("useB.err", world.ErrName(err))
+		zz.Assert((err == nil) == (d2 < int64(lifespan)), "two pushes: the SECOND request_uri is honoured exactly until its own expiry")
+	}
+}
